@@ -1,6 +1,7 @@
 package props
 
 import (
+	"runtime"
 	"encoding/json"
 	"fmt"
 	"os"
@@ -494,6 +495,27 @@ var checkC16 = def("C16/interleave", func(c ilCase) error {
 		releaseAll()
 	}
 	time.Sleep(2 * time.Millisecond) // a late send on the closed output would panic here
+	// a clean shutdown leaves nobody behind: once the move-time timers of this script have fired
+	// (they are at most 30 ms), no goroutine may still be inside the driver
+	hadMoveTime := false
+	for _, a := range c.Actions {
+		if a.Kind == "cmd" && strings.Contains(a.Line, "movetime") {
+			hadMoveTime = true
+		}
+	}
+	if hadMoveTime && !alive {
+		var left string
+		for w := 0; w < 40; w++ { // up to 400 ms
+			time.Sleep(10 * time.Millisecond)
+			if left = goroutinesInside("github.com/herohde/morlock/pkg/engine/uci."); left == "" && w >= 6 {
+				break
+			}
+		}
+		if left != "" {
+			return fmt.Errorf("after shutdown a goroutine is still inside the driver 400 ms later:\n%s", left)
+		}
+		labels = append(labels, "goroutine-census-after-shutdown")
+	}
 	nt := false
 	for _, l := range labels {
 		switch l {
@@ -679,4 +701,25 @@ func TestC16_interleave(t *testing.T) {
 		stats.Sample("C16/interleave", c)
 		return checkC16(c)
 	})
+}
+
+// goroutinesInside returns the stack of the first goroutine (other than the caller) that has a
+// frame whose function name starts with the given prefix, or "".
+func goroutinesInside(prefix string) string {
+	buf := make([]byte, 1<<20)
+	buf = buf[:runtime.Stack(buf, true)]
+	for i, g := range strings.Split(string(buf), "\n\n") {
+		if i == 0 {
+			continue // the caller
+		}
+		for _, line := range strings.Split(g, "\n") {
+			if strings.HasPrefix(line, prefix) {
+				if len(g) > 1500 {
+					g = g[:1500]
+				}
+				return g
+			}
+		}
+	}
+	return ""
 }
